@@ -12,7 +12,6 @@ NOT_APPLICABLE = {
     'C15': 'check not built yet in this round (planned, see DESIGN.md section 5)',
     'C18': 'check not built yet in this round (planned, see DESIGN.md section 5)',
     'C19': 'check not built yet in this round (planned, see DESIGN.md section 5)',
-    'C20': 'check not built yet in this round (planned, see DESIGN.md section 5)',
 }
 
 PROPS['C17'] = dict(
@@ -219,4 +218,22 @@ PROPS['C11'] = dict(
     require_counters={'config/edgebreaker': 1000, 'config/kd-tree': 500, 'entries': 100000, 'sub_metadata': 20000, 'attribute_metadata': 10000, 'empty_names': 1000, 'depth/8': 50,
                       'encoder_refused/Failed to encode metadata./name>255/*': 500, 'encoder_refused/Failed to encode metadata./names<=255/empty-value': 500},
     assumptions=['empty values are driven in the plain variant only (constructing them trips UBSan inside libstdc++ before any Draco coding starts)'],
+)
+
+PROPS['C20'] = dict(
+    title='Keyframe animations round-trip with frame order preserved',
+    technique='runtime monitoring: ordered bit-exact comparison + independent reference quantizer and half-step bound over generated animations; ASan/UBSan slice',
+    level='exploration',
+    level_text=('Generated animations (1..10^4 frames, thorough 10^5; 0-8 tracks of 1-16 components, int8..uint32/float32, tracks added before or after the timestamps, optional 1-30 bit quantization per float track, '
+                'speeds 0-10, built-in compression on/off) are encoded and decoded; the monitor requires the frame count, bit-exact timestamps and unquantized tracks in order (NaN/-0.0 patterns kept), '
+                'quantized tracks bit-equal to an independent reference quantizer and inside the C04 half-step bound, each track retrievable with type and component count under the id AddKeyframes returned, '
+                'exact stream consumption, and refusal of NaN/Inf in quantized tracks.'),
+    level_note='Sampled.',
+    rule='one case = one animation + options. Non-trivial = encoder accepted; distinct = hash of the stream.',
+    runs=[dict(variant='plain', harness='c20_keyframes', cases=dict(quick=20000, thorough=400000)),
+          dict(variant='asan', harness='c20_keyframes', tag='asan-slice', cases=dict(quick=2000, thorough=40000))],
+    min_nontrivial=8000,
+    require_counters={'track/quantized/dt9': 5000, 'track/exact/dt9': 3000, 'track/exact/dt1': 1000, 'track/exact/dt6': 1000, 'order/keyframes-first': 3000, 'tracks/0': 500, 'tracks/8': 500,
+                      'quantized_values_checked': 1000000, 'encoder_refused/nan-inf-in-quantized-track': 100},
+    assumptions=[],
 )
